@@ -1,3 +1,5 @@
 import Proofs.C01
 import Proofs.C05
 import Proofs.C04
+import Proofs.Frame
+import Proofs.C12
